@@ -300,10 +300,12 @@ class World:
         self.tf = tf
         self.opts = opts or {}
         c = self.cfg
-        self.disk = SimDisk(bufsize=c["bufsize"], copy_chunk=c["copy_chunk"],
-                            locale_encoding=c["locale"],
-                            tmp_same_fs=c["tmp_same_fs"],
-                            text_chunk=c["text_chunk"])
+        mk = self.opts.get("disk_factory") or SimDisk
+        self.disk = mk(bufsize=c["bufsize"], copy_chunk=c["copy_chunk"],
+                       locale_encoding=c["locale"],
+                       tmp_same_fs=c["tmp_same_fs"],
+                       text_chunk=c["text_chunk"])
+        self.bytes_trace = []
         self.clock = SimClock()
         self.seams = Seams()
         self.model = Model(csv_numbers=(c["storage"] == "csv"))
@@ -401,8 +403,7 @@ class World:
                                            newline=""), **self.dialect))
         if back != rows:
             return
-        ino = self.disk.files[DB_PATH]
-        ino.data[:] = new
+        self.disk.poke(DB_PATH, new)
         self.probe("file-rewritten-by-another-program")
 
     def can(self, what):
@@ -956,6 +957,9 @@ class World:
         disk.end_op()
         steps = disk.log[log_start:]
         self.op_steps[i] = [(x[2], x[3], x[4], x[6]) for x in steps]
+        if self.opts.get("trace_bytes"):
+            self.bytes_trace.append((disk.peek(DB_PATH), tuple(
+                disk.role(p) for p in disk.listing())))
         self.count("steps", len(steps))
         rec = {"i": i, "k": k, "out": out.canon(),
                "steps": [(s[3], s[4], s[5]) for s in steps]}
